@@ -33,11 +33,11 @@ NAME = "resolve"
 DRIVER_SRCS = ["resolve_driver.cpp"]
 MODEL_FAMILY = "resolve"
 MODE = "diff"
-BUDGET = {"quick": 400, "thorough": 6000}
+BUDGET = {"quick": 1500, "thorough": 15000}
 
 KINDS = {"crash", "order_dependent", "wrong_selection", "missed_ambiguity", "false_ambiguity", "false_nomatch",
          "false_match", "rank_not_min", "tied_set", "unsound_match", "output_not_substitution", "bind_accepts_rebind",
-         "bind_rejects_consistent", "exception_escaped", "malformed_output"}
+         "bind_rejects_consistent", "exception_escaped", "malformed_output", "false_reject", "false_accept"}
 PROP_KINDS = {"C19": KINDS}
 
 ATOMS = [0, 1, 2, 3, 4]
@@ -142,6 +142,13 @@ def _next(l, i):
     return l[i], i + 1
 
 
+def _size(l, i):
+    n, i = _next(l, i)
+    if n < 0 or n > 1000:
+        raise Bad()
+    return n, i
+
+
 def _count(l, i):
     n, i = _next(l, i)
     if n < 0 or n > 16:
@@ -189,7 +196,7 @@ def dec_tty(l, i):
         s, i = dec_sty(l, i)
         return ("tss", s), i
     if tag == 12:
-        n, i = _next(l, i)
+        n, i = _size(l, i)
         e, i = dec_tty(l, i)
         return ("tsl", e, n), i
     if tag == 13:
@@ -197,12 +204,14 @@ def dec_tty(l, i):
         v, i = dec_tty(l, i)
         return ("tsd", k, v), i
     if tag == 14:
-        p, i = _next(l, i)
-        m, i = _next(l, i)
+        p, i = _size(l, i)
+        m, i = _size(l, i)
         s, i = dec_sty(l, i)
         return ("tsw", s, p, m), i
     if tag == 15:
         nm, i = _next(l, i)
+        if nm < 0:
+            raise Bad()
         n, i = _count(l, i)
         fs = []
         for _ in range(n):
@@ -281,7 +290,7 @@ def dec_tpat(l, i):
     if tag == 34:
         mode, i = _next(l, i)
         if mode == 0:
-            n, i = _next(l, i)
+            n, i = _size(l, i)
             e, i = dec_tpat(l, i)
             return ("ptsl", ("n", n), e), i
         if mode != 1:
@@ -290,7 +299,7 @@ def dec_tpat(l, i):
         n, i = _count(l, i)
         cs = []
         for _ in range(n):
-            c, i = _next(l, i)
+            c, i = _size(l, i)
             cs.append(c)
         e, i = dec_tpat(l, i)
         return ("ptsl", ("zv", v, tuple(cs)), e), i
@@ -300,13 +309,17 @@ def dec_tpat(l, i):
         return ("ptsd", k, v), i
     if tag == 36:
         a, i = _next(l, i)
-        p, i = _next(l, i)
-        m, i = _next(l, i)
+        p, i = _size(l, i)
+        m, i = _size(l, i)
+        if a not in (0, 1):
+            raise Bad()
         s, i = dec_spat(l, i)
         return (("ptsw", True, 0, 0, s) if a == 1 else ("ptsw", False, p, m, s)), i
     if tag == 37:
         named, i = _next(l, i)
         nm, i = _next(l, i)
+        if named not in (0, 1) or nm < 0:
+            raise Bad()
         n, i = _count(l, i)
         fs = []
         for _ in range(n):
@@ -365,6 +378,8 @@ def decode_case(case):
             elif tag == 4:
                 oreq, i = _next(l, i)
                 he, i = _next(l, i)
+                if oreq not in (-1, 0, 1) or he not in (0, 1):
+                    raise Bad()
                 exp = None
                 if he == 1:
                     exp, i = dec_tty(l, i)
@@ -376,7 +391,7 @@ def decode_case(case):
                 n, i = _count(l, i)
                 hints = []
                 for _ in range(n):
-                    h, i = _next(l, i)
+                    h, i = _size(l, i)
                     hints.append(h)
                 n, i = _count(l, i)
                 args = []
@@ -425,7 +440,7 @@ def dec_bind(l, i):
         s, i = dec_sty(l, i)
         return (1, v, s), i
     if store == 2:
-        n, i = _next(l, i)
+        n, i = _size(l, i)
         return (2, v, n), i
     raise Bad()
 
@@ -669,6 +684,84 @@ def value_inst(sig, p, v, top):
     return False
 
 
+def s_collect(sig, p, s):
+    """first-occurrence bindings of a scalar pattern against a schema (no checking: arg_inst verifies afterwards)"""
+    k = p[0]
+    if k == "sv":
+        sig.setdefault((1, p[1]), s)
+    elif k in ("unk1", "hom"):
+        if s[0] == "lst":
+            s_collect(sig, p[1], s[1])
+        elif s[0] == "tup" and len(s[1]) >= 1:
+            s_collect(sig, p[1], s[1][0])
+    elif k == "fix":
+        if s[0] == "tup":
+            for q, x in zip(p[1], s[1]):
+                s_collect(sig, q, x)
+    elif k == "pset":
+        if s[0] == "set":
+            s_collect(sig, p[1], s[1])
+    elif k == "pmap":
+        if s[0] == "map":
+            s_collect(sig, p[1], s[1])
+            s_collect(sig, p[2], s[2])
+
+
+def t_collect(sig, p, t0):
+    """first-occurrence bindings of an input pattern against a schema"""
+    k = p[0]
+    if k == "pref":
+        t_collect(sig, p[1], t0[1] if t0[0] == "ref" else t0)
+        return
+    t = strip_refs(t0)
+    if k == "v":
+        sig.setdefault((0, p[1]), t)
+    elif k == "bv":
+        if t[0] == "tsb":
+            sig.setdefault((0, p[1]), t)
+    elif k in ("pts", "ptss"):
+        if t[0] == ("ts" if k == "pts" else "tss"):
+            s_collect(sig, p[1], t[1])
+    elif k == "ptsl":
+        if t[0] == "tsl":
+            if p[1][0] == "zv":
+                sig.setdefault((2, p[1][1]), t[2])
+            t_collect(sig, p[2], t[1])
+    elif k == "ptsd":
+        if t[0] == "tsd":
+            s_collect(sig, p[1], t[1])
+            t_collect(sig, p[2], t[2])
+    elif k == "ptsw":
+        if t[0] == "tsw":
+            s_collect(sig, p[4], t[1])
+    elif k == "ptsb":
+        if t[0] == "tsb":
+            for (f, q), (g, x) in zip(p[3], t[2]):
+                t_collect(sig, q, x)
+
+
+def reference_match(ov, q):
+    """Does the overload accept the query?  None when the query uses a feature this reference does not cover."""
+    label, has_out, outp, ps = ov
+    if q["init"] or q["hints"] or q["expected"] is not None:
+        return None
+    if q["oreq"] != -1 and (q["oreq"] == 1) != has_out:
+        return False
+    if len(ps) != len(q["args"]):
+        return False
+    sig = {}
+    for (pk, p), a in zip(ps, q["args"]):
+        if pk == "in" and a[0] == "sc":
+            return None                       # scalar -> const promotion: not covered
+        if pk == "in" and a[0] == "ts":
+            t_collect(sig, p, a[1])
+        elif pk == "sc" and a[0] == "sc" and p[0] != "sc":
+            s_collect(sig, p, a[1])
+    if not all(arg_inst(sig, p, a) for p, a in zip(ps, q["args"])):
+        return False
+    return not has_out or t_subst(sig, outp) is not None
+
+
 def arg_inst(sig, param, arg):
     pk, p = param
     ak = arg[0]
@@ -758,6 +851,17 @@ def oracle(prop, case, impl_out):
             fl.append(("bind_accepts_rebind", "script %d final map differs from first-binding-wins" % k))
     ovs = spec["ovs"]
     nq = len(spec["queries"])
+    # ---- each candidate alone: it matches iff a consistent assignment of its variables exists (reference matcher)
+    for i, ov in enumerate(ovs):
+        for q in range(nq):
+            want = reference_match(ov, spec["queries"][q])
+            got = out["solo"].get((q, i))
+            if want is None or got is None or got[0] not in (0, 1):
+                continue
+            if want and got[0] == 1:
+                fl.append(("false_reject", "overload %d accepts query %d (a consistent assignment exists) but is rejected" % (ov[0], q)))
+            elif not want and got[0] == 0:
+                fl.append(("false_accept", "overload %d matches query %d but no consistent assignment exists" % (ov[0], q)))
     # ---- per order: the outcome is determined by which candidates match alone and their effective ranks
     for o, order in enumerate(spec["orders"]):
         for q in range(nq):
@@ -847,6 +951,7 @@ def oracle(prop, case, impl_out):
                 elif seen[1] != key:
                     fl.append(("order_dependent", "orders %d and %d differ on query %d: %s vs %s" % (seen[0], o, q, seen[1][:3], key[:3])))
                     break
+    fl += findings(case, impl_out)
     # de-duplicate kinds, keep first detail
     seen, res = set(), []
     for k, d in fl:
@@ -854,6 +959,66 @@ def oracle(prop, case, impl_out):
             seen.add(k)
             res.append((k, d))
     return res
+
+
+FINDING_KINDS = {"generic_scalar_beats_structured"}
+
+
+def findings(case, impl_out):
+    """S1 (docs/notes-resolve.md): the selected candidate has a bare unconstrained scalar variable where an
+    otherwise identical matching candidate has a structured (strictly more specific) scalar pattern."""
+    if isinstance(impl_out, dict):
+        return []
+    spec = decode_case(case)
+    if spec is None:
+        return []
+    out = parse_out(impl_out)
+    res = []
+    for o, order in enumerate(spec["orders"]):
+        for q in range(len(spec["queries"])):
+            r = out["res"].get((o, q))
+            if r is None or r["kind"] != 0:
+                continue
+            sel = [spec["ovs"][i] for i in order if spec["ovs"][i][0] == r["label"]]
+            if len(sel) != 1:
+                continue
+            sps = sel[0][3]
+            for i in order:
+                ov = spec["ovs"][i]
+                if ov[0] == r["label"] or out["solo"].get((q, i), (1, 0))[0] != 0 or len(ov[3]) != len(sps):
+                    continue
+                diff = [k for k in range(len(sps)) if sps[k] != ov[3][k]]
+                if len(diff) != 1:
+                    continue
+                k = diff[0]
+                if sps[k][0] != ov[3][k][0]:
+                    continue
+                d = _first_diff(sps[k][1], ov[3][k][1])
+                if d is None:
+                    continue
+                a, b = d
+                if isinstance(a, tuple) and isinstance(b, tuple) and a and b and a[0] == "sv" and not a[2] and \
+                        b[0] in ("pset", "pmap", "hom", "fix", "unk1"):
+                    occ = [x for _, pp in sps for x in _all_vars(pp) if x == ("sc", a[1])]
+                    if len(occ) == 1:
+                        res.append(("generic_scalar_beats_structured",
+                                    "selected %d (bare ~v%d) over matching %d (structured %s) o=%d q=%d"
+                                    % (r["label"], a[1], ov[0], b[0], o, q)))
+                        return res
+    return res
+
+
+def _first_diff(a, b):
+    """the sub-patterns at which two patterns first differ (None if equal)"""
+    if a == b:
+        return None
+    if isinstance(a, tuple) and isinstance(b, tuple) and len(a) == len(b) and a:
+        head_ok = a[0] == b[0] and a[0] not in ("sv", "v", "zv", "sc", "c", "bv") if isinstance(a[0], str) else True
+        if head_ok:
+            diffs = [(x, y) for x, y in zip(a, b) if x != y]
+            if len(diffs) == 1:
+                return _first_diff(*diffs[0])
+    return (a, b)
 
 
 def nontrivial(case, impl_out):
@@ -902,7 +1067,68 @@ def stats(case, impl_out):
         if s["ok"]:
             st["bind_script_ops"] += len(s["ok"])
             st["bind_rejections"] += s["ok"].count(0)
+    st["scalar_value_args"] = sum(1 for l in case if l and l[0] == 4 for _ in [0]) and _count_scalar_args(case)
+    st["finding_S1_generic_scalar_beats_structured"] = 1 if findings(case, impl_out) else 0
+    spec = decode_case(case)
+    if spec is not None:
+        seen = set()
+
+        def walk(p):
+            if isinstance(p, tuple):
+                if p and isinstance(p[0], str):
+                    seen.add(p[0])
+                    if p[0] in ("v", "sv", "zv") and len(p) > 2 and p[2]:
+                        seen.add("constrained_" + p[0])
+                    if p[0] == "ptsb" and p[1]:
+                        seen.add("named_ptsb")
+                for x in p:
+                    walk(x)
+        for (_, ho, outp, ps) in spec["ovs"]:
+            for _, pp in ps:
+                walk(pp)
+            vs = [x for _, pp in ps for x in _all_vars(pp)]
+            if len(vs) != len(set(vs)):
+                seen.add("repeated_variable")
+        for k in seen:
+            st["cases_with_pat_" + k] = 1
+        if any(q["expected"] is not None for q in spec["queries"]):
+            st["cases_with_requested_output"] = 1
+        if any(q["init"] for q in spec["queries"]):
+            st["cases_with_initial_resolution"] = 1
+        if any(q["hints"] for q in spec["queries"]):
+            st["cases_with_size_hints"] = 1
+        if any(a[0] == "ts" and _mentions(a[1], "ref") for q in spec["queries"] for a in q["args"]):
+            st["cases_with_ref_argument"] = 1
+        if any(a[0] == "ts" and _mentions(a[1], "tsb") for q in spec["queries"] for a in q["args"]):
+            st["cases_with_bundle_argument"] = 1
     return st
+
+
+def _mentions(t, tag):
+    if isinstance(t, tuple):
+        return (len(t) > 0 and t[0] == tag) or any(_mentions(x, tag) for x in t)
+    return False
+
+
+def _all_vars(p):
+    out = []
+    if isinstance(p, tuple):
+        if p and p[0] in ("v", "bv"):
+            out.append(("ts", p[1]))
+        elif p and p[0] == "sv":
+            out.append(("sc", p[1]))
+        elif p and p[0] == "zv":
+            out.append(("sz", p[1]))
+        for x in p:
+            out += _all_vars(x)
+    return out
+
+
+def _count_scalar_args(case):
+    spec = decode_case(case)
+    if spec is None:
+        return 0
+    return sum(1 for q in spec["queries"] for a in q["args"] if a[0] == "sc")
 
 
 # --------------------------------------------------------------------------- generator
@@ -987,6 +1213,8 @@ class OvCtx:
 
 def gen_spat(oc, s, depth=0):
     rng = oc.rng
+    if s in oc.sc and rng.random() < 0.35:
+        return ("sv", oc.sc[s], ())
     r = rng.random()
     if r < 0.30:
         cons = ()
@@ -1036,6 +1264,9 @@ def gen_size(oc, n):
 def gen_tpat(oc, t, depth=0, for_output=False):
     """generalise the concrete schema t into a pattern that (usually) accepts it"""
     rng = oc.rng
+    key0 = t if for_output else strip_refs(t)
+    if key0 in oc.ts and rng.random() < 0.4:
+        return ("v", oc.ts[key0], ())          # the same schema was already generalised to a variable: repeat it
     r = rng.random()
     if not for_output and r < 0.04:
         return ("psig",)
@@ -1220,8 +1451,11 @@ def gen_arg(ctx, kind):
         r = rng.random()
         if r < 0.04:
             return ("null",)
-        if r < 0.10:
+        if r < 0.09:
             return ("sc", gen_atom(rng))
+        if r < 0.12:
+            return ("sc", rng.choice([("set", gen_atom(rng, True)), ("map", gen_atom(rng, True), gen_atom(rng)),
+                                      ("lst", gen_atom(rng)), ("tup", (gen_atom(rng), gen_atom(rng)))]))
         return ("ts", gen_tty(ctx))
     if kind == "scalar":
         r = rng.random()
@@ -1350,10 +1584,43 @@ def gen(rng, tier, prop):
     kinds = [rng.choices(["ts", "scalar", "mixed"], [80, 12, 8])[0] for _ in range(arity)]
     nseeds = rng.randint(1, 3)
     seeds = [[gen_arg(ctx, k) for k in kinds] for _ in range(nseeds)]
+    for sd in seeds:          # equal argument types at two positions invite a repeated variable
+        if arity >= 2 and rng.random() < 0.4:
+            i, j = rng.sample(range(arity), 2)
+            if kinds[i] == kinds[j]:
+                sd[j] = sd[i]
     nov = rng.randint(2, 6 if tier == "quick" else 5)
     with_out = rng.random() < 0.55
     ovs = []
     label = 0
+    # critical pair for scalar parameters: a bare scalar variable against a structured pattern of the same position
+    comp = [(si, i) for si, sd in enumerate(seeds) for i, a in enumerate(sd) if a[0] == "sc" and a[1][0] != "a"]
+    if comp and rng.random() < 0.5:
+        si, i = rng.choice(comp)
+        base = gen_overload(rng, 1, seeds[si], kinds, with_out and rng.random() < 0.5)
+        v = seeds[si][i][1]
+        shape = {"set": ("pset", ("sv", 7, ())), "lst": ("hom", ("sv", 7, ())), "map": ("pmap", ("sv", 7, ()), ("sv", 8, ())),
+                 "tup": ("fix", tuple(("sv", 7 + j, ()) for j in range(len(v[1]))) if v[0] == "tup" else ())}[v[0]]
+        g = list(base[3])
+        g[i] = ("sc", ("sv", 6, ()))
+        sp = list(base[3])
+        sp[i] = ("sc", shape)
+        ovs = [(1, base[1], base[2], g), (2, base[1], base[2], sp)]
+        label = 2
+    comp_ts = [(si, i) for si, sd in enumerate(seeds) for i, a in enumerate(sd)
+               if a[0] == "ts" and a[1][0] == "ts" and a[1][1][0] in ("map", "tup", "set", "lst")]
+    if not ovs and comp_ts and rng.random() < 0.5:
+        si, i = rng.choice(comp_ts)
+        base = gen_overload(rng, 1, seeds[si], kinds, with_out and rng.random() < 0.5)
+        v = seeds[si][i][1][1]
+        shape = {"set": ("pset", ("sv", 7, ())), "lst": ("hom", ("sv", 7, ())), "map": ("pmap", ("sv", 7, ()), ("sv", 8, ())),
+                 "tup": ("fix", tuple(("sv", 7 + j, ()) for j in range(len(v[1]))) if v[0] == "tup" else ())}[v[0]]
+        g = list(base[3])
+        g[i] = ("in", ("pts", ("sv", 6, ())))
+        sp = list(base[3])
+        sp[i] = ("in", ("pts", shape))
+        ovs = [(1, base[1], base[2], g), (2, base[1], base[2], sp)]
+        label = 2
     while len(ovs) < nov:
         label += 1
         seed = rng.choice(seeds)
@@ -1398,6 +1665,12 @@ def gen(rng, tier, prop):
             q["init"] = [_rand_bind(ctx) for _ in range(rng.randint(1, 2))]
         if rng.random() < 0.06:
             q["hints"] = [rng.choice([0, 1, 2, 3]) for _ in range(rng.randint(1, 2))]
+        zv = sorted(_size_vars_of(ovs))
+        if zv and rng.random() < 0.12:
+            v = rng.choice(zv)
+            n1 = rng.choice([1, 2, 3])
+            q["init"] = q["init"] + [(2, v, n1)]
+            q["hints"] = [rng.choice([n1, n1, 1, 2, 3])] + ([rng.choice([1, 2, 3])] if rng.random() < 0.3 else [])
         queries.append(q)
     n = len(ovs)
     ident = list(range(n))
@@ -1420,6 +1693,24 @@ def gen(rng, tier, prop):
     if rng.random() < 0.03:
         case = malformed(rng, case)
     return case
+
+
+def _size_vars_of(ovs):
+    acc = set()
+
+    def walk(p):
+        if not isinstance(p, tuple):
+            return
+        if p and p[0] == "zv":
+            acc.add(p[1])
+        for x in p:
+            if isinstance(x, tuple):
+                walk(x)
+    for (_, _, out, ps) in ovs:
+        walk(out)
+        for _, p in ps:
+            walk(p)
+    return acc
 
 
 def _rand_bind(ctx):
@@ -1489,3 +1780,36 @@ def shrink(case):
             else:
                 c.append(l)
         yield c
+
+
+# --------------------------------------------------------------------------- exhaustive small space (thorough tier)
+
+_INT, _STR = ("a", 1), ("a", 3)
+_TSI, _TSS_ = ("ts", _INT), ("ts", _STR)
+_ENUM_PATS = [
+    ("v", 1, ()), ("c", _TSI), ("pts", ("sv", 1, ())), ("pts", ("sc", _INT)), ("pref", ("v", 1, ())),
+    ("pref", ("pts", ("sv", 1, ()))), ("psig",), ("ptsl", ("zv", 1, ()), ("v", 1, ())),
+    ("ptsl", ("n", 2), ("pts", ("sv", 1, ()))), ("ptsl", ("n", 0), ("c", _TSI)), ("c", ("ref", _TSI)),
+    ("v", 1, (_TSI,)),
+]
+_ENUM_ARGS = [_TSI, _TSS_, ("ref", _TSI), ("tsl", _TSI, 2), ("ref", ("tsl", ("ref", _TSI), 2)), ("tsl", _TSS_, 3), ("sig",)]
+_ENUM_P2 = [("v", 1, ()), ("v", 2, ()), ("c", _TSI), ("pts", ("sv", 1, ())), ("pts", ("sv", 2, ())), ("pref", ("v", 1, ()))]
+_ENUM_A2 = [(_TSI, _TSI), (_TSI, _TSS_), (("ref", _TSI), _TSI), (_TSS_, ("ref", _TSS_))]
+
+
+def enumerate_cases(prop):
+    """every family of two one-parameter overloads over a 12-pattern vocabulary against 7 argument types, and every
+    family of two two-parameter overloads over a 6-pattern vocabulary (repeated variables) against 4 argument pairs;
+    both registration orders"""
+    def q1(t):
+        return {"oreq": -1, "expected": None, "init": [], "hints": [], "args": [("ts", t)]}
+    for a in _ENUM_PATS:
+        for b in _ENUM_PATS:
+            ovs = [(1, True, a if a[0] != "psig" else ("c", _TSI), [("in", a)]), (2, True, b if b[0] != "psig" else ("c", _TSI), [("in", b)])]
+            yield [enc_overload(o) for o in ovs] + [[3, 2, 0, 1], [3, 2, 1, 0]] + [enc_query(q1(t)) for t in _ENUM_ARGS]
+    tuples = [(x, y) for x in _ENUM_P2 for y in _ENUM_P2]
+    for i, (a1, a2) in enumerate(tuples):
+        for (b1, b2) in tuples[i:]:
+            ovs = [(1, False, None, [("in", a1), ("in", a2)]), (2, False, None, [("in", b1), ("in", b2)])]
+            qs = [{"oreq": -1, "expected": None, "init": [], "hints": [], "args": [("ts", x), ("ts", y)]} for x, y in _ENUM_A2]
+            yield [enc_overload(o) for o in ovs] + [[3, 2, 0, 1], [3, 2, 1, 0]] + [enc_query(q) for q in qs]
